@@ -47,6 +47,10 @@ def probe_known_findings(ctx):
 
 
 def run(ctx):
+    if ctx.replay:
+        cov = io_ovmb.replay(ctx, "C06")
+        ctx.set_evidence(level="other", coverage=cov, assumptions=ASSUME)
+        return
     probe = probe_known_findings(ctx)
     a = io_ascii.run_c06(ctx)
     b = io_ovmb.run_c06(ctx)
